@@ -48,6 +48,9 @@ class Recorder:
         self.table_pristine = None if self.table is None else self.table.copy()
 
     def _values(self, n, k):
+        if self.kind == "int":
+            # integer-typed draws (counts): the sample must still hold real-valued assignment results
+            return (np.arange(n, dtype=np.int64) * (1 + self.tag % 3) + 7 * k + self.tag) % 11 - 5
         base = ((self.tag * 37) % 101) / 17.0 - 3.0
         step = 0.013 * ((self.tag % 7) + 1)
         return base + step * np.arange(n) + 0.37 * k + 0.5 * np.sin(np.arange(n) * (1 + self.tag % 5))
@@ -151,9 +154,12 @@ def _call_dicts(call, p):
         d = {}
         for t, spec in call.get(nm, {}).items():
             tag = {"do": 1000, "shift": 2000, "noise": 3000}[nm] + int(t)
-            d[int(t)] = Recorder(tag, spec) if spec != "closure" else closure_recorder(tag)
+            d[int(t)] = Recorder(tag, "int" if INT_DRAWS[0] else spec) if spec != "closure" or INT_DRAWS[0] else closure_recorder(tag)
         out[nm] = d
     return out
+
+
+INT_DRAWS = [False]
 
 
 def _rec(obj):
@@ -169,6 +175,7 @@ def check(case):
     import sempler
     A = _model(case)
     p = len(A)
+    INT_DRAWS[0] = bool(case.get("int_draws"))
     rows = G.rows_from_matrix(A)
     pa = [sorted(G.bits(x)) for x in G.transpose(rows)]
     n = case["n"]
@@ -178,7 +185,9 @@ def check(case):
     noises = []
     for i in range(p):
         kind = case["noise_kinds"][i]
-        noises.append(closure_recorder(i, "fresh") if kind == "closure" else Recorder(i, "table" if kind == "table" else "fresh"))
+        if case.get("int_draws"):
+            kind = "int"
+        noises.append(closure_recorder(i, "fresh") if kind == "closure" else Recorder(i, kind if kind in ("table", "int") else "fresh"))
     keepA = A.copy()
     anm = must(lib(sempler.ANM, A, assignments, noises), "ANM(...)")
     # the constructor deep-copies callable objects: read the logs from the model's own copies
@@ -343,6 +352,7 @@ def anm_case(draw, p_max):
         calls.append(call)
     case["calls"] = calls
     case["sub"] = "anm"
+    case["int_draws"] = draw(st.integers(0, 7)) == 0
     return case
 
 
